@@ -26,9 +26,9 @@ CORPUS = os.path.join(common.ROOT, "corpus", "c03")
 
 def variant_specs(thorough):
     v = [
-        {"name": "seed0", "env": {"PYTHONHASHSEED": "0"}},
-        {"name": "seed1_cwd_tmp", "env": {"PYTHONHASHSEED": "1"}, "cwd": "tmp"},
-        {"name": "seedrandom_moved", "env": {"PYTHONHASHSEED": "random"}, "moved": True},
+        {"name": "seed0", "env": {"PYTHONHASHSEED": "0", "TZ": "UTC0"}},
+        {"name": "seed1_cwd_tmp", "env": {"PYTHONHASHSEED": "1", "TZ": "JST-9"}, "cwd": "tmp"},
+        {"name": "seedrandom_moved", "env": {"PYTHONHASHSEED": "random", "TZ": "EST5EDT", "LANG": "C", "LC_ALL": "C"}, "moved": True},
         {"name": "local_store_nodebug", "env": {"PYTHONHASHSEED": "7"}, "store": "local", "extra_debug": False},
         {"name": "noop_store_graph", "env": {"PYTHONHASHSEED": "8"}, "store": "noop", "export_graph": True},
         {"name": "after_history", "env": {"PYTHONHASHSEED": "9"}, "history": True},
@@ -169,13 +169,16 @@ def run(ctx):
                 "RAW = pathlib.Path('data/raw.csv')\nDOT = pathlib.Path('.')\nUP = pathlib.Path('../x/./y')\nABS = pathlib.Path('/abs/x.csv')\n"
                 "PURE = pathlib.PurePosixPath('rel/y')\nDAY = datetime.date(2021, 3, 1)\nTUP = (pathlib.Path('a/b'), 'c')\n"
                 # ... sets, whose iteration order depends on the hash seed of the interpreter
-                "STOP = frozenset({'the', 'a', 'of', 'and', 'to', 'in'})\nNA = {'', 'NA', 'null', None, 'n/a'}\n\n"
+                "STOP = frozenset({'the', 'a', 'of', 'and', 'to', 'in'})\nNA = {'', 'NA', 'null', None, 'n/a'}\n"
+                # ... naive and aware date-times (the process's time zone differs between the environments)
+                "START = datetime.datetime(2021, 3, 4, 5, 6)\nAWARE = datetime.datetime(2021, 3, 4, 5, 6, tzinfo=datetime.timezone(datetime.timedelta(hours=2)))\n"
+                "CLOCK = datetime.time(12, 30)\n\n"
                 + "".join("def g_%s():\n    return str(sorted(map(str, %s))) if isinstance(%s, (set, frozenset)) else str(%s)\n\n" % (n.lower(), n, n, n)
-                          for n in ("RAW", "DOT", "UP", "ABS", "PURE", "DAY", "TUP", "STOP", "NA"))
+                          for n in ("RAW", "DOT", "UP", "ABS", "PURE", "DAY", "TUP", "STOP", "NA", "START", "AWARE", "CLOCK"))
                 # ... and a function that imports a (non-accepted) helper module in its body: whether that module is already loaded in
                 # the interpreter when the analysis runs (it is not the first time) must not matter
                 + "def g_lazy():\n    import %s\n    return str(%s.VALUE)\n\n" % (pm + "_lazy", pm + "_lazy")
-                + "def f0():\n" + "".join("    dds.keep('/c03/%s', g_%s)\n" % (n.lower(), n.lower()) for n in ("RAW", "DOT", "UP", "ABS", "PURE", "DAY", "TUP", "STOP", "NA", "LAZY"))
+                + "def f0():\n" + "".join("    dds.keep('/c03/%s', g_%s)\n" % (n.lower(), n.lower()) for n in ("RAW", "DOT", "UP", "ABS", "PURE", "DAY", "TUP", "STOP", "NA", "START", "AWARE", "CLOCK", "LAZY"))
                 + "    return 'ok'\n")
         for d in (base, moved):
             with open(os.path.join(d, pm + ".py"), "w") as fh:
